@@ -58,6 +58,9 @@ func beBit(s string, off, n, j int) Bit {
 // checkBE compares an integer form with "big-endian bytes [off,off+n)".
 func checkBE(e *Engine, f *Form, t types.Type, s string, off, n int) (bool, string) {
 	bv := e.BVOf(f, t)
+	if len(bv.Bits) < 8*n {
+		return false, fmt.Sprintf("%s — the field's type holds only %d of the %d bits", bv.Key(), len(bv.Bits), 8*n)
+	}
 	for j, b := range bv.Bits {
 		var want Bit
 		if j < 8*n {
